@@ -12,12 +12,32 @@ numbers, offsets, a remaining-byte counter.  This module executes their *syntax 
   * `while` loops are not iterated: `loop_cases` executes the body once per case of the loop counter and reports, for each
     clause of an exact-length copy loop, either nothing, a refutation with the case it fails in, or Undecided.
 
+
+Forks and re-division (round 4).  With `Exec.script` set (a list of choices already taken) the execution is *forkable*:
+  * a test that is not uniform in the current case is not an error: the execution asks for a choice (`Fork`), the driver
+    (`explore`) re-runs the function once per answer; the answer is recorded as an ASSUMPTION (`Exec.assumptions`), it is
+    never used to decide anything but the very same comparison again;
+  * a division of the file size by something that is not the current part size starts a new GENERATION: the divisor becomes
+    the part size `P#k` of a fresh decomposition size = q#k*P#k + rem#k with its own case (one choice out of
+    `Exec.rebase_cases`), and every variable that held the divisor / the size now holds `P#k` / `q#k*P#k + rem#k`.  The unknowns
+    of the earlier decompositions keep their names and their meaning, so every value computed before stays valid; a value
+    that still carries them afterwards is a result of a superseded division (a stale remainder, a stale part count):
+    nothing relates it to the fresh decomposition but the link size == q#k*P#k + rem#k, P#k == divisor recorded in `Exec.gens`;
+  * a division of anything else by a positive divisor yields an opaque quotient / remainder pair (`atom` generation):
+    naturals about which nothing else is known.
+Proofs (sign decisions) stay sound: they hold for every value of the unknowns, related or not.  Refutations are different:
+a point of N^k is a real input only if it respects the links between the generations and the assumptions, so `refute`
+only returns REALISABLE points (`real_points`: the unknowns of the first generation are free, those of later generations
+are computed from the links) - when it finds none the caller declines.
+
 Nothing from the repository is imported or run.
 """
 from __future__ import annotations
 
 import ast
-from typing import Any, Callable, Dict, List, Optional, Sequence, Tuple
+import itertools
+import operator
+from typing import Any, Callable, Dict, Iterator, List, Optional, Sequence, Set, Tuple
 
 from . import pyfacts as pf
 from .common import AnalysisError
@@ -26,6 +46,33 @@ from .polysign import ONE, ZERO, Poly, decide, witnesses
 
 class Undecided(AnalysisError):
     pass
+
+
+class Fork(Exception):
+    """The forkable execution needs a choice it has not been scripted for (caught by `explore`, never by the analysis)."""
+
+    def __init__(self, key: str, options: Sequence[Any]):
+        super().__init__(key)
+        self.key = key
+        self.options = list(options)
+
+
+class Infeasible(Exception):
+    """The chosen combination of cases contradicts itself (the superseded and the fresh decomposition cannot denote one size)."""
+
+
+CANONICAL = ('q', 'P', 'rem', 's_', 'r_', 'u_', 'e_', 'c_')   # unknowns of a decomposition size = q*P + rem and the slack of its cases
+OPS = {'==': operator.eq, '!=': operator.ne, '<': operator.lt, '<=': operator.le, '>': operator.gt, '>=': operator.ge}
+NEG = {'==': '!=', '!=': '==', '<': '>=', '>=': '<', '>': '<=', '<=': '>'}
+FLIP = {'==': '==', '!=': '!=', '<': '>', '>': '<', '<=': '>=', '>=': '<='}
+
+
+def rename_poly(p: Poly, ren: Callable[[str], str]) -> Poly:
+    t: Dict[Tuple[str, ...], int] = {}
+    for m, c in p.t.items():
+        m2 = tuple(sorted(ren(v) for v in m))
+        t[m2] = t.get(m2, 0) + c
+    return Poly(t)
 
 
 class Op:
@@ -100,6 +147,53 @@ class Exec:
         self.call_model: Optional[Callable[['Exec', ast.Call, Any, str], Any]] = None
         self.read_len: Poly = Poly.var('L')
         self._fresh = 0
+        # forkable execution (see the module docstring); all inert while script is None
+        self.script: Optional[List[Any]] = None
+        self.script_pos = 0
+        self.trace: List[Tuple[str, Any]] = []          # (what was asked, what was chosen), in execution order
+        self.assumptions: List[Tuple[str, Poly, Poly, bool, str]] = []   # (op, a, b, assumed truth, source text)
+        self.gens: List[Op] = []                        # links between generations / definitions of opaque quotients
+        self.rebase_cases: List[Tuple[str, Dict[str, Poly]]] = []
+        self.keep: Set[str] = set()                     # unknowns that do not belong to a decomposition (buffer size ...)
+        self._saved: List[Dict[str, Any]] = []          # environments put aside by try statements (follow a re-division like the live one)
+        self.gen_names: Dict[str, str] = {}             # canonical unknown -> its name in the decomposition in force (identity at first)
+        self.canonical_divmod: Optional[Tuple[Poly, Poly, Poly, Poly]] = None   # divmod_of in canonical names (set with rebase_cases)
+
+    def child(self, fn: pf.FuncDef, env: Dict[str, Any], sub: Dict[str, Poly], label: str) -> 'Exec':
+        """A non-forkable execution in the same world (same generations, same assumptions)."""
+        ex = Exec(self.m, fn, env, sub, label)
+        ex.call_model, ex.divmod_of = self.call_model, self.divmod_of
+        ex.assumptions, ex.gens, ex.keep, ex.gen_names = self.assumptions, self.gens, self.keep, self.gen_names
+        return ex
+
+    # ---- forks ------------------------------------------------------------------------------
+    def choose(self, key: str, options: Sequence[Any]) -> Any:
+        if self.script is None:
+            raise Undecided(f'{self.label}: {key} is not decided by the analysis')
+        if self.script_pos >= len(self.script):
+            raise Fork(key, options)
+        c = self.script[self.script_pos]
+        self.script_pos += 1
+        return c
+
+    def assumed(self, op: str, a: Poly, b: Poly) -> Optional[bool]:
+        """Truth of `a op b` as far as it follows from ONE assumption about the very same difference."""
+        d = self.inst(a) - self.inst(b)
+        for op2, a2, b2, t2, _ in self.assumptions:
+            d2 = self.inst(a2) - self.inst(b2)
+            if d2 == d:
+                o2 = op2
+            elif d2 == -d:
+                o2 = FLIP[op2]
+            else:
+                continue
+            if not t2:
+                o2 = NEG[o2]
+            allowed = [sg for sg in (-1, 0, 1) if OPS[o2](sg, 0)]   # sign classes of d the assumption leaves
+            ans = {OPS[op](sg, 0) for sg in allowed}
+            if len(ans) == 1:
+                return ans.pop()
+        return None
 
     # ---- deciding ---------------------------------------------------------------------------
     def inst(self, p: Poly) -> Poly:
@@ -116,6 +210,12 @@ class Exec:
 
     def must(self, op: str, a: Poly, b: Poly, what: str) -> bool:
         d = self.decide(op, a, b)
+        if d is None:
+            d = self.assumed(op, a, b)
+        if d is None and self.script is not None:
+            d = bool(self.choose(f'test `{what}`', [True, False]))
+            self.assumptions.append((op, a, b, d, what))
+            self.trace.append(('test', f'`{what}` is {"true" if d else "false"}'))
         if d is None:
             raise Undecided(f'{self.label}: cannot decide `{what}` ({self.inst(a)!r} {op} {self.inst(b)!r}) uniformly in this case')
         return d
@@ -174,6 +274,8 @@ class Exec:
             if isinstance(e.op, (ast.FloorDiv, ast.Mod)):
                 qr = self._divmod(a, b, pf.nsrc(e))
                 return qr[0] if isinstance(e.op, ast.FloorDiv) else qr[1]
+            if isinstance(e.op, ast.Div):
+                return Op('truediv', a=a, b=b, src=pf.nsrc(e))   # only int(), math.floor(), math.ceil() make an integer of it again
             raise AnalysisError(f'{self.label}: unsupported arithmetic `{pf.nsrc(e)}`')
         if isinstance(e, ast.Call):
             return self.ev_call(e)
@@ -191,16 +293,130 @@ class Exec:
         if a.is_const() and b.is_const() and b.const_value() != 0:
             q, r = divmod(a.const_value(), b.const_value())
             return Poly.const(q), Poly.const(r)
+        if self.divmod_of is not None:
+            size, P, qv, rv = self.divmod_of
+            if b == P:
+                r = self._by_part_size(a, src)
+                if r is not None:
+                    return r
+            elif self.script is not None and self.rebase_cases:
+                # the file size (or its ceiling idioms -size, size + d - 1) divided by something else: a fresh decomposition
+                shape = 'size' if a == size else 'neg' if a == -size else 'ceil' if a == size + b - ONE else None
+                if shape is not None:
+                    if self.decide('>=', b, ONE) is not True:
+                        if self.decide('<=', b, ZERO) is True:
+                            raise Infeasible(f'{self.label}: `{src}` divides by {self.inst(b)!r}')
+                        raise Undecided(f'{self.label}: the divisor of `{src}` ({self.inst(b)!r}) is not known to be positive')
+                    self.rebase(b, src)
+                    size, P = self.divmod_of[0], self.divmod_of[1]
+                    a2 = {'size': size, 'neg': -size, 'ceil': size + P - ONE}[shape]
+                    r = self._by_part_size(a2, src) if shape != 'size' else (self.divmod_of[2], self.divmod_of[3])
+                    if r is not None:
+                        return r
+        if self.script is not None and self.decide('>=', b, ONE) is True and (self.decide('>=', a, ZERO) is True or self.decide('<=', a, ZERO) is True):
+            return self._opaque_division(a, b, src)
         raise AnalysisError(f'{self.label}: division `{src}` is not the recognised division of the file size by the part size')
 
-    def _pick(self, name: str, vals: List[Poly], src: str) -> Any:
-        best = vals[0]
-        for v in vals[1:]:
-            d = self.decide('<=' if name == 'min' else '>=', v, best)
+    def _by_part_size(self, a: Poly, src: str) -> Optional[Tuple[Poly, Poly]]:
+        """a // P and a % P for a = m*P + t with 0 <= t < P decided in the current case (size + P - 1, -size, size - 1 ...)."""
+        P = self.divmod_of[1]  # type: ignore[index]
+        pn = P.unknowns()
+        if len(pn) != 1 or P != Poly.var(pn[0]):
+            return None
+        x = pn[0]
+        m0: Dict[Tuple[str, ...], int] = {}
+        t0: Dict[Tuple[str, ...], int] = {}
+        for mono, c in a.t.items():
+            if x in mono:
+                rest = list(mono)
+                rest.remove(x)
+                m0[tuple(rest)] = m0.get(tuple(rest), 0) + c
+            else:
+                t0[mono] = c
+        m, t = Poly(m0), Poly(t0)
+        for j in (0, -1, 1, -2, 2):
+            tj = t - Poly.const(j) * P
+            if self.decide('>=', tj, ZERO) is True and self.decide('<', tj, P) is True:
+                return m + Poly.const(j), tj
+        return None
+
+    def _opaque_division(self, a: Poly, b: Poly, src: str) -> Tuple[Poly, Poly]:
+        """Quotient and remainder of a division the decomposition says nothing about: two naturals defined by the link (a, b); the only
+        case split is remainder = 0 / > 0.  A non-positive dividend -x is reduced to x (floor(-x/b) = -ceil(x/b))."""
+        neg = self.decide('>=', a, ZERO) is not True
+        x = -a if neg else a
+        k = len(self.gens) + 1
+        qn, rn, sn = f'dq{k}', f'dr{k}', f'dr{k}_'
+        pos = self.choose(f'remainder of `{src}`', [False, True])
+        self.trace.append(('atom', f'`{src}` leaves {"a" if pos else "no"} remainder'))
+        self.sub[rn] = ONE + Poly.var(sn) if pos else ZERO
+        if not pos and self.decide('>=', x, ONE) is True:
+            self.sub[qn] = ONE + Poly.var(qn + '_')     # a positive number divided without remainder: the quotient is positive
+        self.gens.append(Op('gen', what='atom', k=k, size=x, div=b, q=qn, P=None, rem=rn, src=src))
+        qv, rv = Poly.var(qn), Poly.var(rn)
+        if not neg:
+            return qv, rv
+        return (-qv - ONE, b - rv) if pos else (-qv, ZERO)
+
+    # ---- generations ------------------------------------------------------------------------
+    def cur(self, p: Poly) -> Poly:
+        """A normal form written with the canonical unknowns (q, P, rem, s_, r_, u_, e_, c_) in the names of the decomposition in force."""
+        return rename_poly(p, lambda n: self.gen_names.get(n, n))
+
+    def generation(self, name: str) -> Optional[int]:
+        """The decomposition an unknown belongs to (1 = the original one); None for unknowns that belong to none (buffer size, opaque quotients)."""
+        if '#' in name:
+            return int(name.rsplit('#', 1)[1])
+        if name in self.keep or name.startswith(('dq', 'dr')):
+            return None
+        return 1
+
+    def current_generation(self) -> int:
+        return 1 + sum(1 for g in self.gens if g.what == 'size')
+
+    def is_stale(self, p: Poly) -> bool:
+        k = self.current_generation()
+        return any(self.generation(u) not in (None, k) for u in p.unknowns())
+
+    def rebase(self, b: Poly, src: str) -> None:
+        """Start a new generation: the size is from now on decomposed by `b` (see the module docstring).  The unknowns of the decompositions
+        so far keep their names and their meaning (values already computed stay valid); the fresh decomposition gets names tagged #k."""
+        size, P, qv, rv = self.divmod_of  # type: ignore[misc]
+        desc, csub = self.choose(f'case of the division `{src}`', self.rebase_cases)
+        k = self.current_generation() + 1
+        names = {n: f'{n}#{k}' for n in CANONICAL}
+
+        def ren(n: str) -> str:
+            return names.get(n, n)
+        self.gens.append(Op('gen', what='size', k=k, size=size, div=b, q=names['q'], P=names['P'], rem=names['rem'], src=src))
+        new = tuple(rename_poly(p, ren) for p in self.canonical_divmod)
+        for env in (self.env, *self._saved):
+            for name, v in list(env.items()):
+                if isinstance(v, Poly):
+                    if v == b:
+                        env[name] = new[1]
+                    elif v == size:
+                        env[name] = new[0]
+        for n, v in csub.items():
+            self.sub[ren(n)] = rename_poly(v, ren)
+        self.divmod_of = new  # type: ignore[assignment]
+        self.gen_names = names
+        self.trace.append(('division', f'size re-divided by `{src}`: {desc}'))
+        # the two decompositions denote one number, the fresh part size is the divisor: drop combinations that cannot
+        if self.decide('==', size, new[0]) is False or self.decide('==', b, new[1]) is False:
+            raise Infeasible(f'{self.label}: {desc} contradicts the superseded decomposition')
+
+    def _pick(self, name: str, vals: List[Poly], src: str, srcs: Optional[List[str]] = None) -> Any:
+        best, bi = vals[0], 0
+        for vi, v in enumerate(vals[1:], 1):
+            op = '<=' if name == 'min' else '>='
+            d = self.decide(op, v, best)
+            if d is None and self.script is not None:
+                d = self.must(op, v, best, f'{srcs[vi]} {op} {srcs[bi]}' if srcs else f'{self.inst(v)!r} {op} {self.inst(best)!r} in {src}')
             if d is None:
                 return Op('expr', src=src)  # not uniform in this case: only an error if somebody needs the value
             if d:
-                best = v
+                best, bi = v, vi
         return best
 
     def ev_call(self, e: ast.Call) -> Any:
@@ -212,14 +428,24 @@ class Exec:
         if name in ('min', 'max') and len(e.args) >= 2 and not e.keywords:
             vals = [self.ev(a) for a in e.args]
             if all(isinstance(v, Poly) for v in vals):
-                return self._pick(name, vals, pf.nsrc(e))
+                return self._pick(name, vals, pf.nsrc(e), [pf.nsrc(a) for a in e.args])
         if name == 'len' and len(e.args) == 1:
             v = self.ev(e.args[0])
             if isinstance(v, Op) and v.kind == 'buf':
                 return v.L
             return Op('expr', src=pf.nsrc(e))
-        if name == 'int' and len(e.args) == 1:
-            return self.ev(e.args[0])
+        if name in ('int', 'math.floor', 'floor', 'math.ceil', 'ceil') and len(e.args) == 1:
+            v = self.ev(e.args[0])
+            if isinstance(v, Op) and v.kind == 'truediv':
+                # exact for the magnitudes at hand only in the integers: treated as the integer floor / ceiling of the quotient
+                if name in ('math.ceil', 'ceil'):
+                    return -self._divmod(-v.a, v.b, pf.nsrc(e))[0]
+                if name == 'int' and self.decide('>=', v.a, ZERO) is not True:
+                    raise AnalysisError(f'{self.label}: `{pf.nsrc(e)}` truncates a quotient whose sign is not known')
+                return self._divmod(v.a, v.b, pf.nsrc(e))[0]
+            if name != 'int' and not isinstance(v, Poly):
+                return Op('expr', src=pf.nsrc(e))
+            return v
         if name == 'bool' and len(e.args) == 1:
             return Poly.const(int(self.truth(e.args[0])))
         if name in ('cast', 'typing.cast') and len(e.args) == 2:
@@ -397,7 +623,11 @@ class Exec:
                 del self.withs[len(self.withs) - n:]
         if isinstance(st, ast.Try):
             env0 = dict(self.env)
-            r = self.block(st.body)
+            self._saved.append(env0)
+            try:
+                r = self.block(st.body)
+            finally:
+                self._saved.pop()
             merged = self.env
             for h in st.handlers:
                 self.env = dict(env0)
@@ -458,18 +688,178 @@ def _describe(ex: Exec, unknowns: Sequence[str], point: Dict[str, int]) -> str:
 
 
 def refute(ex: Exec, op: str, a: Poly, b: Poly, guards: Sequence[Poly] = ()) -> Optional[Dict[str, int]]:
-    """A valuation of the slack unknowns (all guards >= 0 there) at which `a op b` is false, else None."""
+    """A REALISABLE valuation of the unknowns (all guards >= 0 there) at which `a op b` is false, else None.  Without generations and
+    assumptions every point of N^k is realisable; otherwise see `real_points`."""
     ia, ib = ex.inst(a), ex.inst(b)
     gs = [ex.inst(g) for g in guards]
     unk = set(ia.unknowns()) | set(ib.unknowns())
     for g in gs:
         unk |= set(g.unknowns())
-    import operator
-    f = {'==': operator.eq, '!=': operator.ne, '<': operator.lt, '<=': operator.le, '>': operator.gt, '>=': operator.ge}[op]
-    for pt in witnesses(unk):
+    f = OPS[op]
+    for pt in real_points(ex, unk):
         if all(g.at(pt) >= 0 for g in gs) and not f(ia.at(pt), ib.at(pt)):
             return pt
     return None
+
+
+def _lower_bounds(ex: Exec) -> Dict[str, int]:
+    """Lower bounds on single unknowns that the assumptions force (u_ >= 9998 for `3 + u_ > 10000`): where the small witnesses start."""
+    lb: Dict[str, int] = {}
+    for op, a, b, t, _ in ex.assumptions:
+        if not t:
+            op = NEG[op]
+        d = ex.inst(a) - ex.inst(b)
+        if op in ('<', '<='):
+            d, op = -d, FLIP[op]
+        if op not in ('>', '>='):
+            continue
+        unk = d.unknowns()
+        if len(unk) != 1 or set(d.t) - {(), (unk[0],)}:
+            continue
+        c, k = d.t.get((unk[0],), 0), d.const_value()
+        if c <= 0:
+            continue
+        need = (1 if op == '>' else 0) - k          # c*x >= need
+        if need > 0:
+            lb[unk[0]] = max(lb.get(unk[0], 0), -(-need // c))
+    return lb
+
+
+def real_points(ex: Exec, want: Set[str], limit: int = 729) -> Iterator[Dict[str, int]]:
+    """Valuations of the unknowns that are real inputs.  The unknowns of the FIRST generation (and the shared ones, `ex.keep`) are free
+    naturals; the unknowns of every later generation are computed from its link (quotient and remainder of the superseded size by the
+    divisor, both evaluated at the point) - a point whose computed values fall outside the case being analysed is dropped, and so is a
+    point that contradicts an assumption made at a fork.  Ordinary integer evaluation of normal forms, used for witnesses only."""
+    gens = ex.gens
+
+    def closure(names: Set[str]) -> Set[str]:
+        out: Set[str] = set()
+        todo = list(names)
+        while todo:
+            n = todo.pop()
+            if n in out:
+                continue
+            out.add(n)
+            if n in ex.sub:
+                todo.extend(ex.sub[n].unknowns())
+        return out
+    roots = set(want)
+    for g in gens:
+        roots |= set(g.size.unknowns()) | set(g.div.unknowns())
+    for _, a, b, _, _ in ex.assumptions:
+        roots |= set(a.unknowns()) | set(b.unknowns())
+    solved = closure({g.d[key] for g in gens for key in ('q', 'P', 'rem') if g.d[key] is not None})   # computed from the links
+    free = sorted(n for n in closure(roots) if n not in ex.sub and n not in solved)
+    lb = _lower_bounds(ex)
+    cands = [[lb.get(n, 0) + d for d in (0, 1, 2)] for n in free]
+    combos = sorted(itertools.product(*[range(3)] * len(free)), key=lambda c: (sum(c), c))[:limit]
+
+    def known(pt: Dict[str, int], n: str) -> Optional[int]:
+        if n in ex.sub:
+            p = ex.inst(Poly.var(n))
+            return p.at(pt) if all(u in pt for u in p.unknowns()) else None
+        return pt.get(n)
+
+    def assign(pt: Dict[str, int], n: str, value: int) -> Iterator[Dict[str, int]]:
+        if value < 0:
+            return
+        if n in ex.sub:
+            yield from assign_poly(pt, ex.sub[n], value)
+        elif n in pt:
+            if pt[n] == value:
+                yield pt
+        else:
+            p2 = dict(pt)
+            p2[n] = value
+            yield p2
+
+    def assign_poly(pt: Dict[str, int], poly: Poly, value: int) -> Iterator[Dict[str, int]]:
+        unk = [u for u in poly.unknowns() if known(pt, u) is None]
+        if not unk:
+            vals = {u: known(pt, u) for u in poly.unknowns()}
+            if poly.at(vals) == value:  # type: ignore[arg-type]
+                yield pt
+            return
+        x = unk[-1]
+        if any(x in mono and mono != (x,) for mono in poly.t):
+            return
+        c = poly.t[(x,)]
+
+        def rest(pt1: Dict[str, int], others: List[str]) -> Iterator[Dict[str, int]]:
+            if not others:
+                vals = {u: known(pt1, u) for u in poly.unknowns() if u != x}
+                r = value - (poly - Poly({(x,): c})).at(vals)  # type: ignore[arg-type]
+                if r % c == 0:
+                    yield from assign(pt1, x, r // c)
+                return
+            for v in (0, 1, 2):
+                for pt2 in assign(pt1, others[0], v):
+                    yield from rest(pt2, others[1:])
+        yield from rest(pt, unk[:-1])
+
+    def through(pt: Dict[str, int], i: int) -> Iterator[Dict[str, int]]:
+        if i == len(gens):
+            yield pt
+            return
+        g = gens[i]
+        si, di = ex.inst(g.size), ex.inst(g.div)
+        if not all(u in pt for u in si.unknowns() + di.unknowns()):
+            return
+        sv, dv = si.at(pt), di.at(pt)
+        if dv < 1 or sv < 0:
+            return
+        qv, rv = divmod(sv, dv)
+        targets = [(g.rem, rv)] + ([(g.P, dv)] if g.P is not None else []) + [(g.q, qv)]
+
+        def go(pt1: Dict[str, int], ts: List[Tuple[str, int]]) -> Iterator[Dict[str, int]]:
+            if not ts:
+                yield from through(pt1, i + 1)
+                return
+            for pt2 in assign(pt1, ts[0][0], ts[0][1]):
+                yield from go(pt2, ts[1:])
+        yield from go(pt, targets)
+
+    n_out = 0
+    for combo in combos:
+        pt0 = {n: cands[j][combo[j]] for j, n in enumerate(free)}
+        for pt in through(pt0, 0):
+            ok = True
+            for op, a, b, t, _ in ex.assumptions:
+                ia, ib = ex.inst(a), ex.inst(b)
+                if not all(u in pt for u in ia.unknowns() + ib.unknowns()) or OPS[op](ia.at(pt), ib.at(pt)) != t:
+                    ok = False
+                    break
+            if not ok:
+                continue
+            missing = [u for u in closure(want) if u not in ex.sub and u not in pt]
+            if missing:
+                continue
+            yield pt
+            n_out += 1
+            if n_out >= limit:
+                return
+
+
+def explore(make: Callable[[List[Any]], Exec], limit: int = 600) -> Iterator[Tuple[Exec, str]]:
+    """Run a forkable execution once per combination of choices: (finished execution, how it ended).  Combinations that contradict
+    themselves are dropped."""
+    pending: List[List[Any]] = [[]]
+    runs = 0
+    while pending:
+        script = pending.pop()
+        runs += 1
+        if runs > limit:
+            raise Undecided(f'more than {limit} combinations of cases')
+        ex = make(script)
+        ex.script = list(script)
+        try:
+            status = ex.run()
+        except Fork as f:
+            pending.extend(script + [o] for o in reversed(f.options))
+            continue
+        except Infeasible:
+            continue
+        yield ex, status
 
 
 def _refutations(ex: Exec, op: str, a: Poly, b: Poly):
